@@ -11,6 +11,7 @@ import random
 import numpy as np
 
 DECLINE = (ValueError, TypeError, NotImplementedError, IndexError)
+POSITIONAL_ONLY = {"moveaxis": ("source", "destination"), "repeat": ("repeats",), "tile": ("repetitions",)}
 
 
 def input_data(inp):
@@ -204,7 +205,9 @@ class Interp:
             f = getattr(cubed, op, None) or getattr(la, op)
         else:
             f = getattr(xp, op)
-        return f(*a, **kw)
+        # parameters that are positional-only in the array API (cubed enforces it, NumPy does not)
+        extra = [kw.pop(k) for k in POSITIONAL_ONLY.get(op, ()) if k in kw]
+        return f(*a, *extra, **kw)
 
     def run(self, prog):
         vals = [self.make_input(i) for i in prog["inputs"]]
